@@ -1,7 +1,7 @@
 (* C09 - Endpoint path parameters reach the backend path under every router.
    Only theorem statements, each closed by an exact lemma, and Print Assumptions. *)
 Require Import Verif.Common.Base.
-Require Import Verif.Model.C09 Verif.Spec.C09 Verif.Proof.C09 Verif.Proof.C09_text.
+Require Import Verif.Model.C09 Verif.Spec.C09 Verif.Proof.C09 Verif.Proof.C09_text Verif.Proof.C09_route.
 From Coq Require Import Permutation.
 
 (* every adapter's extractor and the configuration capitalise a parameter name in the same
@@ -145,6 +145,72 @@ Theorem C09_ambiguous_never_served : forall a segs be vals p q,
 Proof. exact ambiguous_never_served. Qed.
 Print Assumptions C09_ambiguous_never_served.
 
+(* THE ROUTE TEXT.  For every tokenised endpoint Init hands the router the endpoint with every
+   declared parameter in the adapter's own syntax (":p" for gin and httptreemux, "{p}" for chi,
+   gorilla and negroni), in order, between the same literals - every name of the grammar, every
+   number and order of parameters, duplicates included *)
+Theorem C09_route_text : forall a segs, forallb seg_ok segs = true ->
+  init_route (colon_mode a) (render_ep segs) = clean_path (render_route (colon_mode a) segs).
+Proof. exact route_text. Qed.
+Print Assumptions C09_route_text.
+
+(* A router that matches segment by segment (":p" / "{p}" binds a non-empty segment, anything
+   else must be equal), given that route text and a request made of the endpoint's literals and
+   unreserved values, extracts exactly the declared names with the request's segments *)
+Theorem C09_router_extracts : forall a segs vals,
+  forallb seg_ok segs = true -> List.length vals = List.length (ph_names segs) ->
+  forallb unreserved_b vals = true -> segs <> [] ->
+  match_route (colon_mode a) (init_route (colon_mode a) (render_ep segs)) (request_path segs vals)
+  = Some (combine (ph_names segs) vals).
+Proof. exact router_extracts. Qed.
+Print Assumptions C09_router_extracts.
+
+(* hence the chain WITH the route text and the router in it (the one the correspondence run
+   compares with the implementation) is the chain the substitution theorem is about *)
+Theorem C09_serve_routed_eq : forall a segs be vals,
+  wf_route segs be vals = true -> segs <> [] ->
+  serve_routed a segs be vals = serve a segs be vals.
+Proof. exact serve_routed_eq. Qed.
+Print Assumptions C09_serve_routed_eq.
+
+(* THE SCANNERS against a declarative reading of the three regular expressions *)
+Theorem C09_backend_outputs_spec : forall n s,
+  In n (backend_outputs s) <-> occurs_placeholder out_char n s.
+Proof. exact backend_outputs_spec. Qed.
+Print Assumptions C09_backend_outputs_spec.
+
+Theorem C09_endpoint_params_spec : forall n s, In n (endpoint_params s) <-> occurs_param n s.
+Proof. exact endpoint_params_spec. Qed.
+Print Assumptions C09_endpoint_params_spec.
+
+Theorem C09_seq_ref_spec : forall s, seq_ref s = true <-> is_seq_ref s.
+Proof. exact seq_ref_spec. Qed.
+Print Assumptions C09_seq_ref_spec.
+
+(* so: whatever the texts, a url_pattern in which "{n}" occurs (n a non-empty run of [\w-.:/])
+   while "/{n}" does not occur in the endpoint, n not of the shape resp<digits>_<x> / JWT.<x>,
+   is rejected *)
+Theorem C09_rejects_undeclared_declarative : forall ep be n,
+  occurs_placeholder out_char n (clean_path be) -> seq_ref n = false ->
+  ~ occurs_param n (clean_path ep) ->
+  exists why, init ep be = Rejected why.
+Proof. exact rejects_undeclared_declarative. Qed.
+Print Assumptions C09_rejects_undeclared_declarative.
+
+(* the oracles of the Init-on-tokens, configuration and route-text case kinds hold of the model *)
+Theorem C09_init_tokens_meets_oracle : forall segs be,
+  forallb seg_ok segs = true -> forallb be_tok_ok be = true ->
+  spec_init_b (ph_names segs) (ph_names be) (accepted_b (init (render_ep segs) (render be))) = true.
+Proof. exact init_tokens_meets_oracle. Qed.
+Print Assumptions C09_init_tokens_meets_oracle.
+
+Theorem C09_config_meets_oracle : forall eps : list (list tok * list tok),
+  (forall e, In e eps -> forallb seg_ok (fst e) = true /\ forallb be_tok_ok (snd e) = true) ->
+  let acc := init_config (map (fun e => (render_ep (fst e), render (snd e))) eps) in
+  forallb (fun e => spec_init_b (ph_names (fst e)) (ph_names (snd e)) acc) eps = true.
+Proof. exact config_meets_oracle. Qed.
+Print Assumptions C09_config_meets_oracle.
+
 (* oracle <-> model, oracle -> Prop *)
 Theorem C09_model_meets_oracle : forall a segs be vals,
   wf_route segs be vals = true -> spec_route_b segs be vals (serve a segs be vals) = true.
@@ -196,3 +262,17 @@ Proof. vm_compute. reflexivity. Qed.
 Example C09_ex_long_name :
   serve Chi [Ph "nameWith-Long_tail0123456789nameW"] [Lit "/b/"; Ph "nameWith-Long_tail0123456789nameW"] ["v"] = OPath "/b/v".
 Proof. vm_compute. reflexivity. Qed.
+Example C09_ex_route_text :
+  init_route true "/u/{userId}/x/{order-id}" = "/u/:userId/x/:order-id" /\
+  init_route false "/u/{userId}/x/{order-id}" = "/u/{userId}/x/{order-id}".
+Proof. vm_compute. auto. Qed.
+Example C09_ex_router :
+  match_route true "/u/:userId/x/:order-id" "/u/u1/x/o2" = Some [("userId", "u1"); ("order-id", "o2")] /\
+  match_route false "/u/{userId}/x/{order-id}" "/u/u1/y/o2" = None.
+Proof. vm_compute. auto. Qed.
+Example C09_ex_occurs : occurs_placeholder out_char "JWT.sub" "/b/{JWT.sub}/x" /\ is_seq_ref "JWT.sub" /\ is_seq_ref "resp12_id".
+Proof.
+  split; [split; [discriminate|split; [reflexivity|exists "/b/", "/x"; reflexivity]]|].
+  split; [right; right; exists "sub"; split; [reflexivity|discriminate]|].
+  right; left; exists "12", "id"; repeat split; discriminate.
+Qed.
